@@ -519,6 +519,158 @@ def _hdr_any_type(state, dl, sl):
     return prep, run
 
 
+# ------------------------------------------------------------------ HTTP/3 layer
+def _h3_qpack_twin(is_client):
+    """ideal QPACK whose verdicts are functions of (decoder instance order, stream, call number): the two
+    copies of the connection get the same verdicts and the same (partly symbolic) header lists"""
+    from .. import h3model as hm
+
+    hm.IdealQpack.reset()
+    hm.IdealQpack.per_instance_tokens = True
+    inst = {}
+
+    def key(obj):
+        return inst.setdefault(id(obj), {"n": {}, "blocked": []})
+
+    def name(obj, tag, sid):
+        st = key(obj)
+        st["n"][(tag, sid)] = st["n"].get((tag, sid), 0) + 1
+        return "%s.s%s.%d" % (tag, sid, st["n"][(tag, sid)])
+
+    def headers():
+        base = [(b":status", b"200")] if is_client else [(b":method", b"GET"), (b":scheme", b"https"), (b":authority", b"a"), (b":path", b"/")]
+        return base + [(b"x", sx.Bytes("header_value", 2, 2))]
+
+    def on_header(dec, sid, data):
+        c = sx.Choice(name(dec, "qh", sid), 3)
+        if c == 1:
+            key(dec)["blocked"].append(sid)
+            raise hm.StreamBlocked()
+        if c == 2:
+            raise hm.DecompressionFailed()
+        return headers()
+
+    def on_resume(dec, sid):
+        b = key(dec)["blocked"]
+        if sid in b:
+            b.remove(sid)
+        if sx.Bool(name(dec, "qr_fail", sid)):
+            raise hm.DecompressionFailed()
+        return headers()
+
+    def on_encoder_data(dec, data):
+        if sx.Bool(name(dec, "qe_fail", 0)):
+            raise hm.EncoderStreamError()
+        return [sid for sid in list(key(dec)["blocked"]) if sx.Bool(name(dec, "qe_unblock", sid))]
+
+    def on_decoder_data(enc, data):
+        if sx.Bool(name(enc, "qd_fail", 0)):
+            raise hm.DecoderStreamError()
+
+    hm.IdealQpack.on_header = staticmethod(on_header)
+    hm.IdealQpack.on_resume = staticmethod(on_resume)
+    hm.IdealQpack.on_encoder_data = staticmethod(on_encoder_data)
+    hm.IdealQpack.on_decoder_data = staticmethod(on_decoder_data)
+
+
+def _h3_pair(is_client):
+    import aioquic.h3.connection as h3
+    from aioquic.quic.logger import QuicLogger
+
+    from .. import h3model as hm
+
+    tr = QuicLogger().start_trace(is_client=is_client, odcid=b"\x01" * 8)
+    qa, qb = hm.FakeQuic(is_client, logger=tr), hm.FakeQuic(is_client)
+    return h3.H3Connection(qa), qa, h3.H3Connection(qb), qb, tr
+
+
+def _h3_compare(outA, outB, qa, qb, A, B, what):
+    sx.check(outA[0] == outB[0], "%s raised %s with logging and %s without" % (what, outA[0], outB[0]))
+    if outA[0] is None and outB[0] is None:
+        sx.check_same(outA[1], outB[1], "HTTP events differ with logging")
+    sx.check(len(qa.sent) == len(qb.sent), "%d stream writes with logging, %d without" % (len(qa.sent), len(qb.sent)))
+    for x, y in zip(qa.sent, qb.sent):
+        sx.check(x[0] == y[0] and bool(x[2]) == bool(y[2]), "stream write differs with logging (stream id / end flag)")
+        sx.check_bytes_eq(x[1], y[1], "stream write differs with logging (data)")
+    sx.check((qa.closed is None) == (qb.closed is None) and (qa.closed is None or qa.closed[0] == qb.closed[0]), "connection close differs with logging: %r vs %r" % (qa.closed, qb.closed))
+    same_state(A, B, "h3")
+
+
+def h3_recv(role, stream_class, maxlen):
+    def run():
+        from aioquic.quic.events import StreamDataReceived
+
+        is_client = role == "client"
+        _h3_qpack_twin(is_client)
+        A, qa, B, qb, tr = _h3_pair(is_client)
+        peer_uni = [3, 7, 11] if is_client else [2, 6, 10]
+        sid = 0 if stream_class == "request" else peer_uni[0]
+        data = sx.Bytes("d", maxlen)
+        fin = sx.Bool("fin")
+        evs = [StreamDataReceived(data=data, end_stream=fin, stream_id=sid), StreamDataReceived(data=b"\x02\x00", end_stream=False, stream_id=peer_uni[2])]
+
+        def go(conn):
+            out = []
+            try:
+                for ev in evs:
+                    out += conn.handle_event(ev)
+            except Exception as exc:
+                return (type(exc).__name__, out)
+            return (None, out)
+
+        oa, ob = go(A), go(B)
+        _h3_compare(oa, ob, qa, qb, A, B, "handle_event")
+        for e in tr._events:
+            jsonable(e)
+
+    return run
+
+
+def h3_send(role):
+    def run():
+        is_client = role == "client"
+        _h3_qpack_twin(is_client)
+        A, qa, B, qb, tr = _h3_pair(is_client)
+        hv = sx.Bytes("sent_header_value", 2, 2)
+        hdrs = ([(b":method", b"GET"), (b":scheme", b"https"), (b":authority", b"a"), (b":path", b"/")] if is_client else [(b":status", b"200")]) + [(b"x", hv)]
+        body = sx.Bytes("body", 3)
+        end = sx.Bool("end_stream")
+        push = (not is_client) and sx.Bool("push")
+
+        def go(conn, q):
+            try:
+                sid = q.get_next_available_stream_id() if is_client else 0
+                if not is_client:
+                    from aioquic.quic.events import StreamDataReceived
+
+                    conn.handle_event(StreamDataReceived(data=b"\x01\x02\x00\x00", end_stream=False, stream_id=0))
+                conn.send_headers(sid, list(hdrs), end_stream=False)
+                conn.send_data(sid, body, end_stream=end)
+                if push:
+                    conn._max_push_id = 8
+                    conn.send_push_promise(0, [(b":method", b"GET"), (b":scheme", b"https"), (b":authority", b"a"), (b":path", b"/p"), (b"x", hv)])
+            except Exception as exc:
+                return (type(exc).__name__, [])
+            return (None, [])
+
+        oa, ob = go(A, qa), go(B, qb)
+        _h3_compare(oa, ob, qa, qb, A, B, "send_headers/send_data/send_push_promise")
+        for e in tr._events:
+            jsonable(e)
+
+    return run
+
+
+def h3_shims():
+    import aioquic.quic.logger as lg
+
+    from . import c16
+
+    d = c16.shims()
+    d[lg] = [("hexdump", _hexdump), "len", "isinstance"]
+    return d
+
+
 def obligations(tier):
     T = tier == "thorough"
     Q = "aioquic.quic.connection.QuicConnection."
@@ -530,6 +682,15 @@ def obligations(tier):
             for rep in ([False, True] if (T and ft in c05.REPEAT and ft not in c05.HEAVY_TWICE) else [False]):
                 prep, run = frame_ob(role, ft, rep)
                 obs.append(Ob("C20.frame.%s.0x%02x%s" % (role, ft, ".twice" if rep else ""), run, frame_shims, enc, bounds="two copies (qlog+secrets log on / off) of a connected %s with stream history receive the same 1-RTT packet with one frame of type 0x%02x (C05 grammar: varints over [0,2^62), byte fields of length 0/2, honest / too long / huge declared lengths, cut at the end or one byte short), then 3 rounds of transmit/timer/events" % (role, ft), prepare=prep, env=frame_env, budget_s=1500 if T else 400, max_decisions=2500, stubs=stubs))
+    from .. import h3model as hm
+
+    H = "aioquic.h3.connection.H3Connection."
+    h3enc = [H + "handle_event", H + "_handle_request_or_push_frame", H + "_handle_control_frame", H + "send_headers", H + "send_data", H + "send_push_promise", "aioquic.quic.logger.QuicLoggerTrace.encode_http3_*"]
+    for role in ("client", "server"):
+        for cls in ("request", "uni"):
+            n = 7 if T else 5
+            obs.append(Ob("C20.h3.recv.%s.%s" % (role, cls), h3_recv(role, cls, n), h3_shims, h3enc, bounds="two H3Connection copies (qlog on / off) over recording QUIC stubs receive the same symbolic bytes (<= %d, with/without FIN) on a %s stream, then QPACK encoder-stream data; ideal QPACK returning header lists with a symbolic 2-byte value, the same verdicts for both copies" % (n, cls), env=hm.patched_qpack, budget_s=1500 if T else 400, max_decisions=1500, stubs=["pylsqpack -> ideal QPACK (verdicts a function of stream and call number)", "QuicConnection -> recorder"]))
+        obs.append(Ob("C20.h3.send.%s" % role, h3_send(role), h3_shims, h3enc, bounds="two copies send headers with a symbolic 2-byte value, a symbolic body of <= 3 bytes (with/without end of stream) and, as server, a push promise", env=hm.patched_qpack, budget_s=400, max_decisions=1500, stubs=["pylsqpack -> ideal QPACK", "QuicConnection -> recorder"]))
     hb = "two copies (logging on / off) of a %s endpoint receive the same arbitrary %s-header datagram (%s), then 3 rounds of transmit/timer/events"
     hstubs = stubs + ["get_retry_integrity_tag -> arbitrary tag, equal for equal inputs", "SMALLEST_MAX_DATAGRAM_SIZE -> 1"]
     states = ["client_firstflight", "server_fresh", "client_connected", "server_connected", "client_closing", "server_closing"]
